@@ -6,12 +6,15 @@
      with an absolute path): exact text-level result rds_impl for all inputs, and equality with the RFC target
      under the exact condition rds_exact (implied by "no empty segment except the last"); outside that condition
      the code departs from 5.2.4 -- witness C06_K_R2_witness, recorded class K_R2.
-   - the merge branch: exact text-level result merge_impl for all inputs (C06_merge_branch_exact) and totality of all
-     five branches (C06_resolve_total); the EQUALITY of merge_impl with 5.2.3 + 5.2.4 is not proved: it is carried
-     by the correspondence run and the independent RFC oracle (tools/spec.py): partial. *)
+   - the merge branch: exact text-level result merge_impl for all inputs (C06_merge_branch_exact), equal to 5.2.3 +
+     5.2.4 when no segment before the last is empty in the base directory and in the reference path
+     (C06_merge_branch_partial); totality of all five branches (C06_resolve_total);
+   - all branches in one statement: C06_resolution_is_rfc_partial.
+   "partial": the property text has no exclusion; on the excluded inputs (an empty segment before the last one) the
+   code is known to depart from the RFC (K_R2), which the check reports as a known finding. *)
 From Coq Require Import List NArith Bool Arith.
 Import ListNotations.
-Require Import V.Regex V.Parse V.ParseProofs V.PathSpec V.Splice V.Setters V.SetPath V.Reference V.C05Proofs V.Rfc V.ResolveProofs V.NormProofs V.ResolveProofs2 V.SetAuth V.SetScheme V.SymProofs V.ParentProofs V.ResolveProofs3.
+Require Import V.Regex V.Parse V.ParseProofs V.PathSpec V.Splice V.Setters V.SetPath V.Reference V.C05Proofs V.Rfc V.ResolveProofs V.NormProofs V.ResolveProofs2 V.SetAuth V.SetScheme V.SymProofs V.ParentProofs V.ResolveProofs3 V.MergeProofs V.ResolveProofs4.
 Local Open Scope nat_scope.
 
 Theorem C06_empty_path_branch_partial : forall (pb pr : parts) (s : str),
@@ -74,6 +77,30 @@ Theorem C06_merge_branch_exact : forall (pb pr : parts) (s : str) (c : N) (t : s
   none_of [QM; HASH] (merge_impl pb pr s).
 Proof. intros pb pr s c t Wb Wr Hbs Hrs Hra Hp Hc. exact (resolve_merge pb pr s Wb Wr Hbs Hrs Hra c t Hp Hc). Qed.
 Print Assumptions C06_merge_branch_exact.
+
+(* ... and that is the RFC 3986 5.2.2 target (5.2.3 merge, then 5.2.4) when no segment before the last one is empty
+   in the base path and in the reference path: the representation invariant is that the accumulated path is the
+   rendering of the stack of the specification walk `norm` (non-empty, dot-free segments after a run of ".."
+   when relative); push / pop / the skipped "." / the closing empty segment are matched step by step *)
+Theorem C06_merge_branch_partial : forall (pb pr : parts) (s : str) (c : N) (t : str),
+  wf_parts pb -> wf_parts pr -> p_scheme pb = Some s -> p_scheme pr = None -> p_authority pr = None ->
+  p_path pr = c :: t -> is c SLASH = false ->
+  clean (removelast (segs (p_path pb))) -> no_inner_empty (split (c :: t)) ->
+  resolve (compose pr) (compose pb) = Some (compose (rfc_target pb pr)).
+Proof. intros pb pr s c t Wb Wr Hbs Hrs Hra Hp Hc. exact (resolve_merge_rfc pb pr s Wb Wr Hbs Hrs Hra c t Hp Hc). Qed.
+Print Assumptions C06_merge_branch_partial.
+
+(* THE PROPERTY, all five branches in one statement: for every well-formed base with a scheme and every well-formed
+   reference, if no segment of the reference path other than its last one is empty and -- when paths are merged -- no
+   segment of the base path other than its last one is empty, the index-level model of resolve returns, without panic,
+   exactly the RFC 3986 5.2.2 target.  The excluded inputs are the recorded class K_R2 (C06_K_R2_witness); on them
+   the exact results are C06_no_merge_branches_exact / C06_merge_branch_exact. *)
+Theorem C06_resolution_is_rfc_partial : forall (pb pr : parts) (s : str),
+  wf_parts pb -> wf_parts pr -> p_scheme pb = Some s ->
+  no_empty_but_last (p_path pr) -> (merges pr -> no_empty_but_last (p_path pb)) ->
+  resolve (compose pr) (compose pb) = Some (compose (rfc_target pb pr)).
+Proof. exact resolve_is_rfc. Qed.
+Print Assumptions C06_resolution_is_rfc_partial.
 
 (* all five branches together: resolution against a base that has a scheme never panics and returns a well-formed
    reference whose authority is the reference's or the base's *)
